@@ -58,6 +58,22 @@ def main() -> int:
             return 1
         return 0
     rep = Report(pid, args.tier, seed, mod)
+    # the version-specific properties get a second leg under CPython 3.11, run concurrently
+    # (quick tier: every 3rd program of the corpus and no lemma; thorough: everything)
+    child = None
+    if pid in LEG311 and not os.environ.get("VERIF_LEG"):
+        if os.path.exists(PY311):
+            import subprocess
+            import tempfile
+
+            env = dict(os.environ, PYTHONPATH="/repo:" + ROOT, VERIF_LEG="311", VERIF_TIER=args.tier,
+                       VERIF_CORPUS_STRIDE="3" if args.tier == "quick" else "1", VERIF_PROCS="8")
+            out_f = tempfile.TemporaryFile(mode="w+")
+            err_f = tempfile.TemporaryFile(mode="w+")
+            child = (subprocess.Popen([PY311, "-W", "ignore::DeprecationWarning", "-m", "vlib.main", pid, "--tier", args.tier],
+                                      cwd=ROOT, env=env, stdout=out_f, stderr=err_f, text=True), out_f, err_f)
+        else:
+            rep.mark_inconclusive("[CPython 3.11 leg]", f"{PY311} not present")
     try:
         mod.run(rep, args.tier, seed)
     except Exception as ex:
@@ -65,20 +81,16 @@ def main() -> int:
 
         traceback.print_exc()
         rep.harness_error(f"harness crashed: {ex!r}")
-    # the version-specific properties get a second leg under CPython 3.11 in the thorough tier
-    if args.tier == "thorough" and pid in LEG311 and not os.environ.get("VERIF_LEG"):
-        if os.path.exists(PY311):
-            import subprocess
-
-            env = dict(os.environ, PYTHONPATH="/repo:" + ROOT, VERIF_LEG="311", VERIF_TIER="thorough")
-            try:
-                r = subprocess.run([PY311, "-W", "ignore::DeprecationWarning", "-m", "vlib.main", pid, "--tier", "thorough"],
-                                   cwd=ROOT, env=env, capture_output=True, text=True, timeout=3300)
-                rep.merge_leg("311", r.returncode, r.stdout, r.stderr)
-            except subprocess.TimeoutExpired:
-                rep.mark_inconclusive("[CPython 3.11 leg]", "timed out")
-        else:
-            rep.mark_inconclusive("[CPython 3.11 leg]", f"{PY311} not present")
+    if child is not None:
+        proc, out_f, err_f = child
+        try:
+            rc = proc.wait(timeout=3300)
+            out_f.seek(0)
+            err_f.seek(0)
+            rep.merge_leg("311", rc, out_f.read(), err_f.read())
+        except Exception as ex:
+            proc.kill()
+            rep.mark_inconclusive("[CPython 3.11 leg]", f"did not finish: {ex!r}")
     return rep.finish()
 
 
